@@ -6,6 +6,8 @@ in a forked child whose file-system calls on a scratch directory are numbered ca
 
   crash  the k-th call is replaced by os._exit(9)           (true process death)
   fault  the k-th call raises an injected OSError
+  faultcrash  the k-th call raises an injected OSError and the process dies at a later boundary j > k
+         (in crash/fault/faultcrash runs the child also reads the target after EVERY call: the observer at any instant)
   sched  two children (distinct pids) stepped by a token scheduler, target observed after each step
   strace (thorough) the unpatched `bin/tidy-imports --replace` under `strace -f`, optionally with a
          kernel-level injected error / SIGKILL at chmod, chown or rename
@@ -178,12 +180,16 @@ class C08(Prop):
             atomic_write_file(Filename(path), data)
         return entry
 
-    def _plan(self, case, who="A"):
+    def _plan(self, case, who="A", watch=None):
+        """`watch`: the child reads the target (bytes + mode) right after every call it makes —
+        the observer at any instant (single-writer runs; the scheduler observes for pairs)"""
         cap = case.get("cap") if who == "A" else case.get("cap_b")
         if case["kind"] == "crash":
-            return dict(kind="crash", k=case["k"], cap=cap)
+            return dict(kind="crash", k=case["k"], cap=cap, watch=watch)
         if case["kind"] == "fault":
-            return dict(kind="fault", k=case["k"], errno=case["errno"], cap=cap)
+            return dict(kind="fault", k=case["k"], errno=case["errno"], cap=cap, watch=watch)
+        if case["kind"] == "faultcrash":      # OSError at call k, process death at the later boundary j
+            return dict(kind="faultcrash", k=case["k"], errno=case["errno"], j=case["j"], cap=cap, watch=watch)
         return dict(kind=None, cap=cap)
 
     def _reference_new(self, case):
@@ -212,6 +218,16 @@ class C08(Prop):
         key = (case.get("via"), str(case.get("old")), case.get("new_size"), case.get("cap"), str(case.get("stale")))
         if key not in self._nc:
             obs = self.run_impl(dict(case, kind="crash", k=10 ** 9))
+            self._nc[key] = len(obs["calls"])
+        return self._nc[key]
+
+    def ncalls_fault(self, case, k, errno):
+        """number of call boundaries when call k raises `errno` (recorded on the real code): the crash points
+        j > k of a fault-then-crash case"""
+        self.env()
+        key = ("F", case.get("via"), str(case.get("old")), case.get("new_size"), case.get("cap"), str(case.get("stale")), k)
+        if key not in self._nc:
+            obs = self.run_impl(dict(case, kind="fault", k=k, errno=errno))
             self._nc[key] = len(obs["calls"])
         return self._nc[key]
 
@@ -275,9 +291,16 @@ class C08(Prop):
         cfg = rng.choice(self._pool)
         n = self.ncalls(cfg)
         k = rng.randint(0, n)
-        if r < 0.62:
+        if r < 0.58:
             return dict(cfg, kind="crash", k=k)
-        return dict(cfg, kind="fault", k=min(k, max(0, n - 1)), errno=rng.choice(G.ERRNOS))
+        k = min(k, max(0, n - 1))
+        en = rng.choice(G.ERRNOS)
+        if r < 0.84:
+            return dict(cfg, kind="fault", k=k, errno=en)
+        m = self.ncalls_fault(cfg, k, en)
+        if m <= k + 1:
+            return dict(cfg, kind="fault", k=k, errno=en)      # nothing is called after this error
+        return dict(cfg, kind="faultcrash", k=k, errno=en, j=rng.randint(k + 1, m - 1))
 
     def exhaustive_cases(self, tier, rng):
         self.env()
@@ -295,7 +318,11 @@ class C08(Prop):
             for k in range(n + 1):
                 out.append(dict(cfg, kind="crash", k=k))
             for k in range(n):
-                out.append(dict(cfg, kind="fault", k=k, errno=G.ERRNOS[(k + len(out)) % len(G.ERRNOS)]))
+                en = G.ERRNOS[(k + len(out)) % len(G.ERRNOS)]
+                out.append(dict(cfg, kind="fault", k=k, errno=en))
+                # disk-full-then-kill: every later boundary the process still reaches after the error
+                for j in range(k + 1, self.ncalls_fault(cfg, k, en)):
+                    out.append(dict(cfg, kind="faultcrash", k=k, errno=en, j=j))
         # the command-line entry, every crash point / fault position for a few files
         for size, mode in ([(200, "0600"), (8192, "0755")] if not thorough else
                            [(s, m) for s in (40, 8191, 8192, 8193, 102400) for m in MODES]):
@@ -304,7 +331,10 @@ class C08(Prop):
             for k in range(n + 1):
                 out.append(dict(cfg, kind="crash", k=k))
             for k in range(n):
-                out.append(dict(cfg, kind="fault", k=k, errno=G.ERRNOS[k % len(G.ERRNOS)]))
+                en = G.ERRNOS[k % len(G.ERRNOS)]
+                out.append(dict(cfg, kind="fault", k=k, errno=en))
+                for j in range(k + 1, self.ncalls_fault(cfg, k, en)):
+                    out.append(dict(cfg, kind="faultcrash", k=k, errno=en, j=j))
         # two writers: all interleavings of the two 7-call skeletons (thorough) / a sample (quick)
         base = dict(via="func", old=dict(size=100, mode="0600"), new_size=60, new_size_b=70, cap=None, cap_b=None,
                     stale=None, stale_b=None)
@@ -345,7 +375,7 @@ class C08(Prop):
                                (self._prepare(root, case.get("stale"), "staleA"),
                                 self._prepare(root, case.get("stale_b"), "staleB")))
                 return dict(A=r["A"], B=r["B"], snaps=r["snaps"], files=G.snapshot(root), env=envd)
-            r = G.run_single(self._entry(case, path), root, self._plan(case),
+            r = G.run_single(self._entry(case, path), root, self._plan(case, watch=path),
                              self._prepare(root, case.get("stale"), "staleA"))
             obs = dict(pid=r["pid"], calls=r["calls"], fin=r["fin"], exit=r["exit"], files=G.snapshot(root), env=envd)
             if case.get("via") == "cmdline":
@@ -471,9 +501,21 @@ class C08(Prop):
         news = dict(new=self._new_bytes(case))
         k = case.get("k")
         where = "%s k=%s" % (case["kind"], k if case["kind"] != "strace" else case.get("inject"))
-        fails, which = self._judge(obs["files"].get(TARGET), old_b, old_mode, news, where)
+        if case["kind"] == "faultcrash":
+            where += " then crash j=%s" % case["j"]
+        fails = []
+        # an observer at any instant: the target right after every call the process made
+        for i, c in enumerate(obs["calls"]):
+            if "snap" in c:
+                fl, _ = self._judge(c["snap"], old_b, old_mode, news,
+                                    "%s: observer after call %d (%s %s)" % (where, i, c["op"], c.get("path") or c.get("paths")))
+                if fl:
+                    fails.extend(fl)
+                    break
+        fl, which = self._judge(obs["files"].get(TARGET), old_b, old_mode, news, where + ": survivor")
+        fails.extend(fl)
         fault_op = None
-        if case["kind"] == "fault" and k is not None and k < len(obs["calls"]):
+        if case["kind"] in ("fault", "faultcrash") and k is not None and k < len(obs["calls"]):
             fault_op = obs["calls"][k]["op"]
         if case["kind"] == "strace" and case.get("inject"):
             fault_op = case["inject"][0]
@@ -544,6 +586,9 @@ class C08(Prop):
             req["fuel"] = case["k"]
         elif case["kind"] == "fault":
             req["fault"] = dict(at=case["k"], errno=getattr(_errno, case["errno"]))
+        elif case["kind"] == "faultcrash":
+            req["fault"] = dict(at=case["k"], errno=getattr(_errno, case["errno"]))
+            req["fuel"] = case["j"]
         elif case["kind"] == "strace" and case.get("inject"):
             sysc, action = case["inject"]
             idx = {"chmod": 3, "chown": 4, "rename": 5}[sysc] + len(ch)
@@ -661,7 +706,9 @@ class C08(Prop):
         stale = {}
         if case.get("stale"):
             stale[900] = G.content("staleA", case["stale"]["size"]).encode()
-        fault_at = case["k"] if case["kind"] == "fault" else None
+        fault_at = case["k"] if case["kind"] in ("fault", "faultcrash") else None
+        failed_io = (fault_at is not None and fault_at < len(obs["calls"])
+                     and obs["calls"][fault_at]["op"] in ("write", "close", "open"))
         strace_kill = case["kind"] == "strace" and case.get("inject") and case["inject"][1].startswith("signal")
         calls = obs["calls"]
         if case["kind"] == "strace":
@@ -675,14 +722,20 @@ class C08(Prop):
             got = "running"
         if case.get("via") == "cmdline" and got.startswith("raised") and want.startswith("raised"):
             got = want          # the command line reports every error as SystemExit
+        if case["kind"] == "faultcrash" and failed_io and got == "running" and want.startswith("raised"):
+            got = want          # died among the flush/close calls CPython issues while the error propagates
         if want != got:
             return "outcome: implementation %s, model %s" % (got, want)
         d = self._same_file(obs["files"].get(TARGET), r["target"], case, sizes, stale, "target")
         if d:
             return d
-        loose = False
-        if fault_at is not None and fault_at < len(obs["calls"]) and obs["calls"][fault_at]["op"] in ("write", "close", "open"):
-            loose = True
+        # the observer's view after every call = the model's target after the same number of steps
+        for i, c in enumerate(obs["calls"]):
+            if "snap" in c and i + 1 < len(r.get("tsnaps", [])):
+                d = self._same_file(c["snap"], r["tsnaps"][i + 1], case, sizes, stale, "target as observed after call %d" % i)
+                if d:
+                    return d
+        loose = failed_io
         return self._same_file(obs["files"].get(r["tmpname"]), r["tmp"], case, sizes, stale, "temp file", loose=loose)
 
     # ------------------------------------------------------------- reporting
@@ -718,6 +771,8 @@ class C08(Prop):
         if case.get("stale"):
             inc("stale_temp")
         k = case.get("k")
+        if case["kind"] == "faultcrash" and case["j"] < len(obs["calls"]):
+            inc("faultcrash_dies_at_%s" % obs["calls"][case["j"]]["op"])
         if k is not None and k < len(obs["calls"]):
             inc("%s_at_%s" % (case["kind"], obs["calls"][k]["op"]))
         elif k is not None:
